@@ -7,6 +7,9 @@ CONSTANTS
   NMac = 2
   NKw = 1
   NPat = 1
+  NIp6 = 1
+  NAk = 1
+  V6Set = {FALSE}
   DelSet = {"space"}
   MaxTok = 2
   MaxLines = 2
